@@ -186,9 +186,11 @@ def _update_tree (force_dpid = None):
   # Now modify ports as needed
   try:
     change_count = 0
-    for sw, ports in tree.items():
-      con = core.openflow.getConnection(sw)
-      if con is None: continue # Must have disconnected
+    # (Go over every connected switch, not just the ones in the tree: a
+    # switch which just lost its last link needs its ports unblocked too.)
+    for con in list(core.openflow.connections):
+      sw = con.dpid
+      ports = tree.get(sw, ())
       if con.connect_time is None: continue # Not fully connected
 
       if _hold_down:
